@@ -29,6 +29,8 @@ type Config struct {
 	GOARCH  string            // "" = host
 	Tests   bool              // include in-package test files
 	Overlay map[string][]byte // file path -> replacement contents (witness-deletion variants)
+
+	normalized bool // the overlay holds helper-inlined files (core/normalize.go)
 }
 
 func (c Config) String() string {
@@ -58,9 +60,13 @@ type Program struct {
 
 	allFuncs map[*ssa.Function]bool
 	modFuncs []*ssa.Function
+	rawFuncs []*ssa.Function
 	cg       *callgraph.Graph
 	cgTime   time.Duration
 	ren      *renameInfo
+	typeRen  map[*types.TypeName]string
+
+	NormNotes []string // what the helper-inlining pass did (reported in the evidence)
 }
 
 // Load loads ./... of cfg.Dir. Any load or type error is returned: the checker fails closed.
@@ -216,23 +222,67 @@ func (p *Program) ModuleFuncs() []*ssa.Function {
 	if p.modFuncs != nil {
 		return p.modFuncs
 	}
+	all := p.rawModuleFuncs()
+	if !p.Cfg.normalized {
+		p.modFuncs = all
+		return all
+	}
+	// helper-inlined view: a new unexported helper all of whose calls were inlined is dead code; it is left in the text (its
+	// imports stay used) but is not part of the analysed program
+	used := map[types.Object]bool{}
+	for _, pk := range p.Pkgs {
+		for _, o := range pk.TypesInfo.Uses {
+			if f, ok := o.(*types.Func); ok {
+				used[f] = true
+			}
+		}
+	}
+	dead := map[*ssa.Function]bool{}
+	for _, fn := range all {
+		if fn.Parent() != nil {
+			continue
+		}
+		obj, _ := fn.Object().(*types.Func)
+		if obj == nil || obj.Exported() || used[obj] || !p.IsNewFunc(obj) {
+			continue
+		}
+		dead[fn] = true
+		p.NormNotes = append(p.NormNotes, "new helper "+fn.Name()+" has no remaining caller after inlining and is not analysed")
+	}
+	for _, fn := range all {
+		root := fn
+		for root.Parent() != nil {
+			root = root.Parent()
+		}
+		if !dead[root] {
+			p.modFuncs = append(p.modFuncs, fn)
+		}
+	}
+	return p.modFuncs
+}
+
+// rawModuleFuncs: every function with a body in the module, before the dead-helper filter.
+func (p *Program) rawModuleFuncs() []*ssa.Function {
+	if p.rawFuncs != nil {
+		return p.rawFuncs
+	}
 	p.allFuncs = ssautil.AllFunctions(p.SSA)
 	for fn := range p.allFuncs {
 		if fn.Blocks == nil || fn.Synthetic != "" && fn.Parent() == nil && fn.Syntax() == nil {
 			continue
 		}
 		if InModule(fn) {
-			p.modFuncs = append(p.modFuncs, fn)
+			p.rawFuncs = append(p.rawFuncs, fn)
 		}
 	}
-	sort.Slice(p.modFuncs, func(i, j int) bool {
-		a, b := p.modFuncs[i], p.modFuncs[j]
+	sort.Slice(p.rawFuncs, func(i, j int) bool {
+		a, b := p.rawFuncs[i], p.rawFuncs[j]
 		if a.String() != b.String() {
 			return a.String() < b.String()
 		}
 		return a.Pos() < b.Pos()
 	})
-	return p.modFuncs
+	return p.rawFuncs
 }
 
 // CallGraph builds (once) the VTA call graph refined from CHA.
@@ -261,8 +311,8 @@ func (p *Program) Func(rel, name string) *ssa.Function {
 		m := name[end+2:]
 		ptr := strings.HasPrefix(recv, "*")
 		recv = strings.TrimPrefix(recv, "*")
-		tn, ok := sp.Pkg.Scope().Lookup(recv).(*types.TypeName)
-		if !ok {
+		tn := p.LookupType(rel, recv)
+		if tn == nil {
 			return nil
 		}
 		var t types.Type = tn.Type()
